@@ -85,6 +85,14 @@ def _ops():
     add("bulk:T3B2,T1B1", [(T3, B2), (T1, B1)], 1, False)
     add("bulk:T2B1,T1B1/m0/vr", [(T2, B1), (T1, B1)], 0, True)
     add("bulk:T1B1large,bad", [(T1, B1, True), ("bogus", B1)], 1, False)
+    add("bulk:T1B1,5aB1/m0/vr", [(T1, B1), ("#5a5a5a", B1)], 0, True)
+    # a translucent spelling the lenient parser accepts (space separated, slash alpha) over two backgrounds: constructions and queries only
+    SL = "rgb(0 0 0 / 0.4)"
+    add("new:slash/B1", SL, B1)
+    add("new:slash/B2", SL, B2)
+    add("ir:slash/B2", SL, B2, False)
+    add("ir:slash/B1", SL, B1, False)
+    add("mr:slash/B2/m1", SL, B2, 1, False, False)
     add("cli:sheet")
     add("cli:sheet/premium")
     # operations that end early or raise: whatever a run sets up must not outlive it
@@ -103,7 +111,8 @@ QUICK_OPS = ["mr:T1/B1/m1", "mr:T1/B1/m1/vr", "mr:T1/B1/m1/large", "mr:T1/B1/m0"
              "P.mr:m1", "P.mr:m0/vr", "P.mr:m2", "P.ir", "bulk:T1B1,T3B2", "bulk:T3B2,T1B1", "cli:sheet", "show:T1/B1",
              "mr:rgba/B1/m1", "mr:hsl/B1/m1", "mr:chroma/mid/m1",
              # the deepest path of each mode, and a strict-mode probe that needs the last tolerance of the schedule
-             "mr:yellow/B1/m2", "mr:T3/B1/m0", "mr:bw/m2", "mr:bw/m2/vr", "mr:bw/m2/large"]
+             "mr:yellow/B1/m2", "mr:T3/B1/m0", "mr:bw/m2", "mr:bw/m2/vr", "mr:bw/m2/large",
+             "new:slash/B1", "new:slash/B2", "ir:slash/B2", "ir:slash/B1", "mr:slash/B2/m1"]
 THOROUGH_OPS = QUICK_OPS + ["mr:aaa/B1/m1", "bulk:T2B1,T1B1/m0/vr", "bulk:T1B1large,bad", "new:bad", "mr:78/B1/m0",
                             "cli:sheet/premium"]
 
@@ -328,6 +337,9 @@ WORKLOADS = {
     # a bulk run against a single fix of an hsl() spelling of one of its pairs
     "W4": ["bulk:T1B1,5aB1", "mr:hsl47/B1/m1"],
     "W4r": ["mr:hsl47/B1/m1", "bulk:T1B1,5aB1"],
+    # two overlapping bulk calls with different settings that share a pair
+    "W6": ["bulk:T1B1,5aB1", "bulk:T1B1,5aB1/m0/vr"],
+    "W6r": ["bulk:T1B1,5aB1/m0/vr", "bulk:T1B1,5aB1"],
     # three threads
     "W5": ["ir:T1/B1", "mr:T1/B1/m1", "mr:5a/B1/m1/vr"],
 }
@@ -532,7 +544,7 @@ def run(ctx):
     ctx.sample({"subcheck": "history", "ops": ["mr:T2/B1/m0/vr", "P.mr:m1", "P.mr:m1"]})
 
     # ---- (3) schedules ---------------------------------------------------------------------------------------
-    wl = WORKLOADS if not q else {k: WORKLOADS[k] for k in ("W1", "W1r", "W2", "W3", "W4", "W5")}
+    wl = WORKLOADS if not q else {k: WORKLOADS[k] for k in ("W1", "W1r", "W2", "W3", "W4", "W5", "W6")}
     
     total = 0
     outcomes = {}
